@@ -185,6 +185,8 @@ CHECKS: dict[str, dict] = {
         "technique": "deterministic simulation of the training loop with fault injection (scalar-type erasure at the pmap boundary, clock jumps/stalls, device schedules), seeded history search against a reference automaton, bounded-liveness seam",
         "design_ref": "DESIGN.md section 3 (C19)",
         "rule": (
+            "batch sweep_len6_exhaustive: complete enumeration of all 5460 loss histories of length 1..6 over a 4-letter ordered alphabet x 16 patience "
+            "configurations (TrainLoss/ValLoss, patience 0-3, min_delta 0 / 0.125) x 3 scalar representations (262080 direct histories); other batches: "
             "seeded loss histories (<=24 epochs, dyadic alphabet of 2-6 letters plus NaN/inf in a quarter of runs) x "
             "condition (TrainLoss/ValLoss/EpochStop, patience 0-3, min_delta 0/0.125/1, verbose) x scalar representation "
             "(float, np.float32, np.float64, 0-d jax array, pmap-mean) x schedule (batches/epoch, 1/2/4 devices) x clock faults; "
